@@ -243,3 +243,109 @@ Qed.
 (* the three ProcessDeposits were right already: run_old = run there *)
 Lemma run_old_same : forall p es, uses_status p = false -> p <> SubRetry -> run_old p es = run p es.
 Proof. intros p es H1 H2. destruct p; try reflexivity; [discriminate | contradiction]. Qed.
+
+(* ---- what is handed on to the relayer cannot crash the consumer -------------------------------- *)
+
+(* every group is non-empty and holds only messages of its own destination *)
+Definition GInv (g : groups) : Prop :=
+  forall k l, In (k, l) g -> l <> [] /\ forall m, In m l -> dest m = k.
+
+Lemma GInv_nil : GInv [].
+Proof. intros k l []. Qed.
+
+Lemma add_GInv : forall m g, GInv g -> GInv (add m g).
+Proof.
+  intros m g. induction g as [|[k' l'] r IH]; intros Hg k l Hin; cbn [add] in Hin.
+  - destruct Hin as [Heq|[]]. injection Heq as <- <-. split; [discriminate|].
+    intros m' [<-|[]]. reflexivity.
+  - destruct (N.eqb (dest m) k') eqn:E.
+    + apply N.eqb_eq in E. destruct Hin as [Heq|Hin].
+      * injection Heq as <- <-. destruct (Hg k' l' (or_introl eq_refl)) as [_ Hd]. split.
+        -- intros Habs. apply app_eq_nil in Habs. destruct Habs as [_ Habs]. discriminate.
+        -- intros m' Hm'. apply in_app_or in Hm'. destruct Hm' as [Hm'|[<-|[]]]; [apply Hd; exact Hm'|exact E].
+      * apply Hg. right. exact Hin.
+    + destruct Hin as [Heq|Hin].
+      * apply Hg. left. exact Heq.
+      * apply IH; [|exact Hin]. intros k0 l0 H0. apply Hg. right. exact H0.
+Qed.
+
+Lemma process_deposits_GInv : forall ds g, GInv g -> GInv (process_deposits ds g).
+Proof.
+  induction ds as [|d r IH]; intros g Hg; cbn [process_deposits]; [exact Hg|].
+  destruct (handle d); apply IH; try exact Hg. apply add_GInv; exact Hg.
+Qed.
+
+Lemma rv1_event_GInv : forall l g, GInv g -> GInv (rv1_event l g).
+Proof.
+  induction l as [|[d st] r IH]; intros g Hg; cbn [rv1_event]; [exact Hg|].
+  destruct (handle d); try (apply IH; exact Hg).
+  destruct st; apply IH; try exact Hg. apply add_GInv; exact Hg.
+Qed.
+
+Lemma sub_block_GInv : forall l g, GInv g -> GInv (sub_block l g).
+Proof.
+  induction l as [|[d st] r IH]; intros g Hg; cbn [sub_block]; [exact Hg|].
+  destruct (handle d); apply IH; try exact Hg. apply add_GInv; exact Hg.
+Qed.
+
+Lemma retry_gen_GInv : forall ev, (forall l g, GInv g -> GInv (ev l g)) ->
+  forall es g, GInv g -> GInv (retry_v1_gen ev es g).
+Proof.
+  intros ev Hev es. induction es as [|e r IH]; intros g Hg; cbn [retry_v1_gen]; [exact Hg|].
+  destruct e as [|l]; apply IH; [exact Hg | apply Hev; exact Hg].
+Qed.
+
+Lemma run_GInv : forall p es g, run p es = Done g -> GInv g.
+Proof.
+  intros p es g H. destruct p; cbn in H; injection H as <-.
+  - apply process_deposits_GInv, GInv_nil.
+  - apply process_deposits_GInv, GInv_nil.
+  - apply process_deposits_GInv, GInv_nil.
+  - apply retry_gen_GInv; [exact rv1_event_GInv | exact GInv_nil].
+  - apply retry_gen_GInv; [exact sub_block_GInv | exact GInv_nil].
+Qed.
+
+(* no_empty_group: the output groups are non-empty by construction (a group exists only because a
+   message was appended to it), and homogeneous *)
+Lemma no_empty_group : forall p es g k l,
+  run p es = Done g -> In (k, l) g -> l <> [] /\ forall m, In m l -> dest m = k.
+Proof. intros p es g k l H Hin. exact (run_GInv p es g H k l Hin). Qed.
+
+Lemma somes_map_Some : forall l, somes (map Some l) = Some l.
+Proof. induction l as [|m r IH]; cbn [map somes]; [reflexivity | rewrite IH; reflexivity]. Qed.
+
+(* every batch the model hands on is delivered, whole, to the chain of its destination *)
+Lemma groups_routed : forall p es g k l,
+  run p es = Done g -> In (k, l) g -> route (map Some l) = Delivered k l.
+Proof.
+  intros p es g k l H Hin. destruct (no_empty_group p es g k l H Hin) as [Hne Hd].
+  destruct l as [|m r]; [contradiction|].
+  unfold route. cbn [map]. change (Some m :: map Some r) with (map Some (m :: r)).
+  rewrite somes_map_Some. rewrite (Hd m (or_introl eq_refl)). reflexivity.
+Qed.
+
+Lemma sent_ok_model : forall p es g, run p es = Done g -> sent_ok (batches_of g) = true.
+Proof.
+  intros p es g H. unfold sent_ok, batches_of. apply forallb_forall. intros b Hb.
+  apply in_map_iff in Hb. destruct Hb as [[k l] [<- Hin]]. cbn [snd].
+  unfold batch_ok. rewrite (groups_routed p es g k l H Hin). reflexivity.
+Qed.
+
+Lemma somes_no_None : forall b l, somes b = Some l -> ~ In None b.
+Proof.
+  induction b as [|x r IH]; intros l H; [intros []|].
+  destruct x as [m|]; cbn [somes] in H; [|discriminate].
+  destruct (somes r) as [l'|] eqn:E; [|discriminate].
+  intros [Habs|Hin]; [discriminate | exact (IH l' eq_refl Hin)].
+Qed.
+
+Lemma sent_ok_sound : forall bs, sent_ok bs = true ->
+  forall b, In b bs -> b <> [] /\ ~ In None b /\ exists k l, route b = Delivered k l.
+Proof.
+  intros bs H b Hb. unfold sent_ok in H. rewrite forallb_forall in H. specialize (H b Hb).
+  unfold batch_ok in H. destruct (route b) as [k l|] eqn:E; [|discriminate].
+  split; [intros ->; discriminate|]. split; [|exists k, l; reflexivity].
+  unfold route in E. destruct b as [|[m|] r]; try discriminate.
+  destruct (somes (Some m :: r)) as [l'|] eqn:Es; [|discriminate].
+  exact (somes_no_None _ _ Es).
+Qed.
